@@ -10,6 +10,7 @@ import (
 	"path/filepath"
 	"regexp"
 	"slices"
+	"strings"
 	"sync"
 
 	"github.com/jessevdk/go-flags"
@@ -380,7 +381,7 @@ func removeLineFromFile(filePath, line string) error {
 
 	scanner := bufio.NewScanner(f)
 	for scanner.Scan() {
-		if scanner.Text() != line {
+		if !sameIniLine(scanner.Text(), line) {
 			_, err := buf.Write(scanner.Bytes())
 			if err != nil {
 				return err
@@ -400,6 +401,22 @@ func removeLineFromFile(filePath, line string) error {
 		return err
 	}
 	return nil
+}
+
+// sameIniLine reports whether two "key=value" lines denote the same setting.
+// The ini parser accepts whitespace around the key and the value, so lines that
+// only differ in that whitespace are the same entry.
+func sameIniLine(a, b string) bool {
+	if a == b {
+		return true
+	}
+	ak, av, aok := strings.Cut(a, "=")
+	bk, bv, bok := strings.Cut(b, "=")
+	if !aok || !bok {
+		return false
+	}
+	return strings.TrimSpace(ak) == strings.TrimSpace(bk) &&
+		strings.TrimSpace(av) == strings.TrimSpace(bv)
 }
 
 func (p *Policy) reload(r io.Reader) error {
